@@ -27,7 +27,7 @@ ASSUMPTIONS = ["RLIMIT_FSIZE stands in for a full file system and applies to eve
                "overflow = the end index of an appended subarray does not fit the index type"]
 EXHAUSTIVE = "the F-fsize grid for the values file and for the indices file"
 KINDS = ['raise', 'badatom', 'badrank', 'unconv', 'overflow', 'numstr', 'bare-scalar', 'atomshaped']
-MUST_HIT = ['overflow:end=max+1', 'iter:>1024-items-before-the-failure', 'iter:one-ndarray-as-iterable', 'iter:generator-whose-close-raises', 'iter:inside-open-context', 'fsize:refused-in-buffered-tail-of-big-item'] + ['iter:' + k for k in KINDS] + ['iter:append', 'iter:iterappend', 'iter:empty-start', 'iter:p=0', 'iter:p>0',
+MUST_HIT = ['iter:generator-switches-handle-to-r', 'overflow:end=max+1', 'iter:>1024-items-before-the-failure', 'iter:one-ndarray-as-iterable', 'iter:generator-whose-close-raises', 'iter:inside-open-context', 'fsize:refused-in-buffered-tail-of-big-item'] + ['iter:' + k for k in KINDS] + ['iter:append', 'iter:iterappend', 'iter:empty-start', 'iter:p=0', 'iter:p>0',
                                              'fsize:values', 'fsize:indices', 'fsize:loud', 'fsize:silent', 'fsize:mid-row', 'fsize:on-boundary']
 IDXMAX = {'int8': 127, 'uint8': 255, 'int16': 32767}
 
@@ -76,7 +76,7 @@ def st_iter(draw):
     spec = {'f': 'iter', 'dt': draw(gens.st_dt()), 'atom': atom, 'seed': draw(st.integers(0, 2 ** 31)),
             'start': [draw(st.sampled_from([0, 1, 2, 3])) for _ in range(draw(st.integers(0, 3)))],
             'n': n, 'p': draw(st.integers(0, n)), 'kind': kind, 'lens': [draw(st.sampled_from([0, 1, 2, 3])) for _ in range(n)],
-            'via': draw(st.sampled_from(['iterappend-gen', 'iterappend-list', 'append', 'iterappend-gen-badclose'])),
+            'via': draw(st.sampled_from(['iterappend-gen', 'iterappend-list', 'append', 'iterappend-gen-badclose', 'iterappend-gen-sets-mode'])),
             'indextype': draw(st.sampled_from(['int64', 'int32', 'uint16', 'int8'])),
             'ctx': draw(st.sampled_from([None, None, 'open_arrays', 'iter_arrays']))}
     if kind == 'overflow':
@@ -220,6 +220,17 @@ def _exec_iter(ctx, spec):
                 else:
                     seq = list(done) + [bad] + good[p:]
                     it = (c for c in seq) if via == 'iterappend-gen' else _badclose(seq, out) if via == 'iterappend-gen-badclose' else seq
+                    if via == 'iterappend-gen-sets-mode':
+                        # the generator switches the handle to read-only after its first item (the call began in r+), then goes on
+                        out.cls('iter:generator-switches-handle-to-r')
+
+                        def feed(seq=seq):
+                            for j, x in enumerate(seq):
+                                if j == 1:
+                                    ra.accessmode = 'r'
+                                yield x
+                            ra.accessmode = 'r'
+                        it = feed()
                     if via == 'iterappend-ndarray' and kind == 'overflow':
                         out.cls('iter:one-ndarray-as-iterable')
                         it = np.stack([np.asarray(x, dtype=dt) for x in seq])
@@ -346,7 +357,7 @@ def iter_grid():
             for n in range(0, 3):
                 for p in range(0, n + 1):
                     for kind in KINDS:
-                        for via in ('iterappend-gen', 'iterappend-list', 'append', 'iterappend-gen-badclose'):
+                        for via in ('iterappend-gen', 'iterappend-list', 'append', 'iterappend-gen-badclose', 'iterappend-gen-sets-mode'):
                             if kind == 'overflow' and itype not in IDXMAX:
                                 continue
                             yield {'f': 'iter', 'dt': {'t': t, 'bo': bo}, 'atom': atom, 'seed': 4, 'start': start, 'n': n, 'p': p, 'kind': kind,
